@@ -280,7 +280,7 @@ func (c41) NewRun(plan *simrt.Source, job *harn.Job) harn.Run {
 		r.tasks = append(r.tasks, t)
 	}
 	for i := 0; i < nc; i++ {
-		r.tasks = append(r.tasks, taskPlan{Kind: "closer", Delay: plan.Draw(40), Post: plan.Draw(4)})
+		r.tasks = append(r.tasks, taskPlan{Kind: "closer", Delay: plan.Draw(40), Post: plan.Draw(6)})
 	}
 	if nr > 0 {
 		t := taskPlan{Kind: "feeder", Delay: plan.Draw(6)}
@@ -532,10 +532,18 @@ func (r *c41run) Body(s *simrt.Sim) {
 			case "closer":
 				r.doClose(name)
 				for k := 0; k < t.Post; k++ {
+					// the third and later ones with an EMPTY buffer: "every Read or
+					// Write started after Close" includes those (a fast path for
+					// empty requests must not skip the closed test)
+					size := 3
+					if k >= 2 {
+						size = 0
+						r.sim.Probe("empty-op-after-close")
+					}
 					if k%2 == 0 {
-						r.doRead(name, 3)
+						r.doRead(name, size)
 					} else {
-						r.doWrite(name, 3)
+						r.doWrite(name, size)
 					}
 				}
 			case "feeder":
